@@ -413,8 +413,9 @@ class Stack:
         json.dump(cfg, open(os.path.join(self.sd, "proxy-agent.json"), "w"))
         r, w = os.pipe()
         self.panic_log = os.path.join(self.sd, "panics.log")
+        os.makedirs(os.path.join(self.sd, "tmp"), exist_ok=True)
         env = dict(os.environ, VERIF_ENGINE="proxy", VERIF_OUT=f"/dev/fd/{w}", VERIF_LOG_LEVEL=log_level,
-                   VERIF_PANIC_LOG=self.panic_log)
+                   VERIF_PANIC_LOG=self.panic_log, TMPDIR=os.path.join(self.sd, "tmp"))
         self.proc = subprocess.Popen((wrapper or []) + [exe], stdin=subprocess.PIPE, stdout=open(os.path.join(self.sd, "stdout.txt"), "wb"),
                                      stderr=open(os.path.join(self.sd, "stderr.txt"), "wb"), env=env, pass_fds=(w,), cwd=self.sd)
         os.close(w)
